@@ -146,6 +146,32 @@ theorem runAllE_eq (I : Inner) (given : Option Name) (force : Bool) (cs : List (
     | true => simp
     | false => simp [hout]
 
+/-- **the abstraction `Inner` is exact for the decoder objects**: after any history of chunks `xs` (no call
+raised), the next call `decode(x, f)` of the decoder object — working on its buffer of pending bytes — raises
+iff the data so far is ill-formed, and otherwise returns exactly `feedInner`: the text of everything so far minus
+the text already returned -/
+theorem istep_is_feedInner (c : CName) (E : Name) (hl : lookupName E = some c) (xs : List (List Nat))
+    (x : List Nat) (f : Bool) (s : ISt) (t0 : List Nat) (h : irun c c.init xs = some (s, t0)) :
+    (istep c s x f).map (·.2) =
+      if errAt E (xs.flatten ++ x) f then none else some (feedInner cpyInner E xs.flatten x f) := by
+  rw [irun_eq c c.init (stable_init c) xs] at h
+  have e0 : c.init.buf = [] := by cases c <;> rfl
+  rw [e0, List.nil_append] at h
+  cases he : (ifeed c c.init.mode xs.flatten false).res.err with
+  | true => simp [he] at h
+  | false =>
+    simp only [he, Bool.false_eq_true, if_false, Option.some.injEq, Prod.mk.injEq] at h
+    obtain ⟨hs, _⟩ := h
+    subst hs
+    obtain ⟨h1, _⟩ := ifeed_splits c c.init.mode xs.flatten x f
+    simp only [istep]
+    unfold errAt feedInner
+    simp only [hl, cpyInner, cpyOut, incOut]
+    rw [← ifeed_init, ← ifeed_init c xs.flatten false, h1]
+    simp only [Res.andThen, he, Bool.false_eq_true, if_false]
+    cases (ifeed c (ifeed c c.init.mode xs.flatten false).mode
+      ((ifeed c c.init.mode xs.flatten false).res.pend ++ x) f).res.err <;> simp
+
 /-! ## encoder side -/
 
 theorem encErrAt_mono (E : Name) (a b : List Nat) (h : encErrAt E a = true) : encErrAt E (a ++ b) = true := by
